@@ -18,7 +18,8 @@
 (*           size;                                                         *)
 (*   ta,tb : the types of the explicit arguments for a / b (sequences of   *)
 (*           member atoms L1 L2 Lx Ly None int str Any; >1 = a Union).     *)
-(* env = [ver, plat] is sys.version_info[:3] / sys.platform.               *)
+(* env = [ver, plat] is tuple(sys.version_info) / sys.platform; tuple       *)
+(* elements are typed records EI(n) / ES(n) / N0 / X0 (see "typed elements"). *)
 (*                                                                         *)
 (* Ref* is written from docs/type_evaluation.md only: the argument kinds   *)
 (* POSITIONAL/KEYWORD/DEFAULT/UNKNOWN, compatibility with `Any` matching   *)
@@ -41,7 +42,8 @@ CONSTANTS
     MaxDepth,    \* maximal indentation of a line (0 = function level)
     MaxAtoms,    \* primitive conditions in the whole body
     MaxCondAtoms,\* primitive conditions in one condition (1 or 2)
-    Bug,         \* "none"; other values switch a plausible bug on in the Impl model (sensitivity)
+    Bug,         \* "none"; other values switch a plausible bug on in the Impl model (sensitivity):
+                 \* any_matches, ver2 / ver3 (sys.version_info truncated to 2 / 3 elements), pyeq
     Fixed        \* the repairs (see Repairs) that the code under test contains; {} on the current tree
 
 ToSet(s) == {s[i] : i \in 1..Len(s)}
@@ -54,8 +56,29 @@ Idx(v) == IF v = "a" THEN 1 ELSE 2
 KindAtom(f, v) == [k |-> "kind", f |-> f, v |-> v]              \* is_provided / is_positional / is_keyword
 Oft(v, tt, x) == [k |-> "oft", v |-> v, tt |-> tt, x |-> x]      \* is_of_type(v, Union[tt], exclude_any=x)
 Cmp(v, op, lit) == [k |-> "cmp", v |-> v, op |-> op, lit |-> lit] \* v == 1, v is not None, ...
-Ver(op, tup) == [k |-> "ver", op |-> op, tup |-> tup]            \* sys.version_info >= (3, 8)
+\* typed elements of tuples / right-hand sides: an int, a string (index into StrTab, which is sorted
+\* the way Python sorts strings), None, and a non-literal expression (rendered `int()`)
+StrTab == <<"3", "alpha", "beta", "candidate", "final", "x">>
+EI(n) == [k |-> "i", n |-> n]
+ES(n) == [k |-> "s", n |-> n]
+N0 == [k |-> "n", n |-> 0]
+X0 == [k |-> "x", n |-> 0]
+IT(s) == [i \in 1..Len(s) |-> EI(s[i])]
+\* sys.version_info <op> (e1, .., en)   op in lt le gt ge eq ne; sc: the right-hand side is the bare
+\* element tup[1] instead of a tuple (sys.version_info > "3")
+Ver(op, tup) == [k |-> "ver", op |-> op, tup |-> tup, sc |-> FALSE]
+VerS(op, e) == [k |-> "ver", op |-> op, tup |-> <<e>>, sc |-> TRUE]
+VerIx(i, op, n) == [k |-> "veri", i |-> i, op |-> op, n |-> n]   \* sys.version_info[0] >= 3 (PEP 484's example)
 Plat(op, name) == [k |-> "plat", op |-> op, name |-> name]       \* sys.platform == "linux"
+PlatIn(op, names) == [k |-> "platin", op |-> op, names |-> names]  \* sys.platform [not] in ("linux", "darwin")
+PlatSW(name) == [k |-> "platsw", name |-> name]                  \* sys.platform.startswith("lin")
+\* forms that are NOT conditions of the specification: arg [not] in (..), a chained comparison
+\* (w = "a": a == 1 == 1, w = "ver": sys.version_info >= (3,) >= (3,)), constant == arg, and an
+\* expression that is no comparison / call at all (w = "a": `a`, "True": `True`, "plat": `sys.platform`)
+CmpIn(v, op, lits) == [k |-> "cmpin", v |-> v, op |-> op, lits |-> lits]
+Chain(v, w) == [k |-> "chain", v |-> v, w |-> w]
+CmpRev(v, lit) == [k |-> "cmprev", v |-> v, lit |-> lit]
+Bare(w) == [k |-> "bare", w |-> w]
 Not(c) == [k |-> "not", c |-> c]
 And2(x, y) == [k |-> "and", cs |-> <<x, y>>]
 Or2(x, y) == [k |-> "or", cs |-> <<x, y>>]
@@ -78,7 +101,7 @@ NAtomsFrom(cs, i) == IF i > Len(cs) THEN 0 ELSE NAtoms(cs[i]) + NAtomsFrom(cs, i
 BodyAtoms(lines) == UNION {AtomsOf(lines[i].c) : i \in 1..Len(lines)}
 RECURSIVE BodyNAtoms(_, _)
 BodyNAtoms(lines, i) == IF i > Len(lines) THEN 0 ELSE NAtoms(lines[i].c) + BodyNAtoms(lines, i + 1)
-TypeVarsTested(lines) == {x.v : x \in {y \in BodyAtoms(lines) : y.k \in {"oft", "cmp"}}}
+TypeVarsTested(lines) == {x.v : x \in {y \in BodyAtoms(lines) : y.k \in {"oft", "cmp", "cmpin", "chain", "cmprev"}}}
 KindVarsTested(lines) == {x.v : x \in {y \in BodyAtoms(lines) : y.k = "kind"}}
 
 (***************************************************************************)
@@ -207,22 +230,69 @@ RefParamType(c, v) ==
 \* "### is_of_type()": would `_: t = <value of type m>` be accepted; with exclude_any, Any is
 \* compatible only with Any.  m, t range over the atoms; a Literal is compatible with itself and
 \* with the class of its value, a class with itself, None with None.
+\* (LT = Literal[True], LE = Literal[E.A] with class E(enum.IntEnum): A = 1 -- three literals that
+\* are == in Python and distinct as types; bool and IntEnum are subclasses of int)
 RefCompat(m, t, excl) ==
     IF m = "Any" THEN ~excl
     ELSE \/ m = t
-         \/ t = "int" /\ m \in {"L1", "L2"}
+         \/ t = "int" /\ m \in {"L1", "L2", "LT", "LE"}
          \/ t = "str" /\ m \in {"Lx", "Ly"}
 
-\* PEP 484 version / platform checks: comparisons of the real tuple / string
-RECURSIVE LexLess(_, _)
-LexLess(x, y) ==
-    IF x = << >> THEN y # << >>
-    ELSE IF y = << >> THEN FALSE
-    ELSE IF Head(x) < Head(y) THEN TRUE
-    ELSE IF Head(x) > Head(y) THEN FALSE
-    ELSE LexLess(Tail(x), Tail(y))
-RefVerTest(env, op, tup) == IF op = "lt" THEN LexLess(env.ver, tup) ELSE ~LexLess(env.ver, tup)
-RefPlatTest(env, op, name) == IF op = "eq" THEN env.plat = name ELSE env.plat # name
+\* PEP 484 version / platform checks: the meaning the expression has in Python on the running
+\* interpreter.  Python's tuple comparison (Objects/tupleobject.c tuplerichcompare): the first index
+\* at which the elements are not == decides -- the operator is applied to those two elements, and
+\* ordering an int against a str / None raises TypeError --; without such an index the lengths are
+\* compared.  Result: "lt" | "eq" | "gt" | "mix" (unequal, not orderable).
+RECURSIVE TupCmp(_, _)
+TupCmp(x, y) ==
+    IF x = << >> THEN (IF y = << >> THEN "eq" ELSE "lt")
+    ELSE IF y = << >> THEN "gt"
+    ELSE IF Head(x) = Head(y) THEN TupCmp(Tail(x), Tail(y))
+    ELSE IF Head(x).k # Head(y).k \/ Head(x).k = "n" THEN "mix"
+    ELSE IF Head(x).n < Head(y).n THEN "lt" ELSE "gt"
+\* <left> <op> <right> given the three-way result; "err" = TypeError
+OpRes(op, r) ==
+    IF r = "mix" THEN (IF op = "eq" THEN "F" ELSE IF op = "ne" THEN "T" ELSE "err")
+    ELSE LET b == CASE op = "lt" -> r = "lt" [] op = "le" -> r \in {"lt", "eq"}
+                    [] op = "gt" -> r = "gt" [] op = "ge" -> r \in {"gt", "eq"}
+                    [] op = "eq" -> r = "eq" [] op = "ne" -> r # "eq"
+         IN IF b THEN "T" ELSE "F"
+HasX(tup) == \E i \in 1..Len(tup) : tup[i].k = "x"
+\* ver: a tuple against a non-tuple is unequal and not orderable
+PyVerCompare(left, x) == OpRes(x.op, IF x.sc THEN "mix" ELSE TupCmp(left, x.tup))
+\* str.startswith on the platform names / prefixes used here
+StartsWith(plat, pre) == <<plat, pre>> \in {<<"linux", "lin">>, <<"win32", "win">>, <<"darwin", "dar">>}
+B2ES(b) == IF b THEN "T" ELSE "F"
+\* value of a version / platform check under Python: "T" | "F" | "err" (checked against the real
+\* interpreter for every recorded check: TypeEvalTrace!OracleOK)
+PyEnvEval(env, x) ==
+    CASE x.k = "ver" -> PyVerCompare(env.ver, x)
+      [] x.k = "veri" -> OpRes(x.op, IF env.ver[x.i + 1].n < x.n THEN "lt" ELSE IF env.ver[x.i + 1].n = x.n THEN "eq" ELSE "gt")
+      [] x.k = "plat" -> B2ES(IF x.op = "eq" THEN env.plat = x.name ELSE env.plat # x.name)
+      [] x.k = "platin" -> B2ES((env.plat \in ToSet(x.names)) = (x.op = "in"))
+      [] x.k = "platsw" -> B2ES(StartsWith(env.plat, x.name))
+\* the shape sys.version_info has: (int, int, int, str, int)
+WellTyped(tup) == /\ Len(tup) \in 1..5
+                  /\ \A i \in 1..Len(tup) : tup[i].k = (IF i = 4 THEN "s" ELSE "i")
+\* Is the expression a condition of the specification ("Conditions in if statements may contain")?
+\*   "valid"    it is, and its meaning is defined;
+\*   "invalid"  it is not (an operator / operand form that is not listed, a right-hand side that is
+\*              no literal, a version check that raises TypeError in Python): the evaluator must be
+\*              rejected with an error at its definition;
+\*   "either"   the text does not say (PEP 484 shows ==, != on sys.platform and ordering of
+\*              sys.version_info against tuples of ints): an implementation may reject it, and if
+\*              it accepts it the meaning is Python's.
+RefValidity(env, x) ==
+    CASE x.k \in {"kind", "oft"} -> "valid"
+      [] x.k = "cmp" -> IF x.op \in {"eq", "ne", "is", "isnot"} /\ x.lit # "X" THEN "valid" ELSE "invalid"
+      [] x.k \in {"cmpin", "chain", "cmprev", "bare"} -> "invalid"
+      [] x.k = "ver" -> IF HasX(x.tup) THEN "invalid"
+                        ELSE IF PyEnvEval(env, x) = "err" THEN "invalid"
+                        ELSE IF ~x.sc /\ WellTyped(x.tup) THEN "valid" ELSE "either"
+      [] x.k \in {"veri", "plat"} -> "valid"
+      [] x.k \in {"platin", "platsw"} -> "either"
+RefMustReject(c, env) == \E x \in BodyAtoms(c.lines) : RefValidity(env, x) = "invalid"
+RefMayReject(c, env) == \E x \in BodyAtoms(c.lines) : RefValidity(env, x) = "either"
 
 \* one concrete execution: mem[v] is the member of the argument's type that is evaluated
 RECURSIVE RefCond(_, _, _, _)
@@ -231,8 +301,7 @@ RefCond(c, env, mem, x) ==
       [] x.k = "oft" -> \E t \in ToSet(x.tt) : RefCompat(mem[x.v], t, x.x)
       [] x.k = "cmp" -> LET eq == RefCompat(mem[x.v], x.lit, TRUE)     \* is_of_type(v, Literal[lit])
                         IN IF x.op \in {"eq", "is"} THEN eq ELSE ~eq
-      [] x.k = "ver" -> RefVerTest(env, x.op, x.tup)
-      [] x.k = "plat" -> RefPlatTest(env, x.op, x.name)
+      [] x.k \in {"ver", "veri", "plat", "platin", "platsw"} -> PyEnvEval(env, x) = "T"
       [] x.k = "not" -> ~RefCond(c, env, mem, x.c)
       [] x.k = "and" -> \A i \in 1..Len(x.cs) : RefCond(c, env, mem, x.cs[i])
       [] x.k = "or" -> \E i \in 1..Len(x.cs) : RefCond(c, env, mem, x.cs[i])
@@ -275,6 +344,12 @@ RefObs(c, env) ==
 \*   "boolop"  an and/or operand that decides the condition after partially matching operands
 \*             does not discard the members those operands had set aside
 Repairs == {"carry", "exact", "keepany", "ell", "boolop"}
+\* repairs of the deviations in accepting / rejecting conditions (see StatusClass)
+\*   "genvisit" an expression that is no call / comparison / not / and / or is rejected
+\*              (ConditionEvaluator has no generic_visit: ast.NodeVisitor's returns None)
+\*   "ornull"   an `or` operand that is invalid makes the whole condition invalid instead of raising
+\*   "veri"     sys.version_info[i] <op> n is evaluated
+StatusRepairs == {"genvisit", "ornull", "veri"}
 NoFix == Fixed
 
 \* Signature.bind_arguments (signature.py:820-1051), restricted to two parameters: the position
@@ -326,17 +401,20 @@ ImplParamType(c, v, F) ==
 \* Value.can_assign on the atoms: KnownValue for the literals (and None, Ellipsis), TypedValue for
 \* int / str, AnyValue.  value.py:102/846/2008: an AnyValue on the right is accepted unless
 \* ctx.should_exclude_any().
-IsKnown(m) == m \in {"L1", "L2", "Lx", "Ly", "None", "Ell"}
+IsKnown(m) == m \in {"L1", "L2", "Lx", "Ly", "None", "Ell", "LT", "LE"}
 PyType(m) == CASE m \in {"L1", "L2", "int"} -> "int" [] m \in {"Lx", "Ly", "str"} -> "str"
-               [] m = "None" -> "NoneType" [] m = "Ell" -> "ellipsis" [] OTHER -> m
+               [] m = "None" -> "NoneType" [] m = "Ell" -> "ellipsis"
+               [] m = "LT" -> "bool" [] m = "LE" -> "E" [] OTHER -> m
+SubClass(x, y) == x = y \/ (y = "int" /\ x \in {"bool", "E"})          \* bool, IntEnum < int
 ImplAssignAtom(t, m, excl) ==
     IF m = "Any" THEN (IF Bug = "any_matches" THEN TRUE ELSE ~excl)
-    ELSE IF IsKnown(t) THEN t = m                       \* KnownValue.can_assign: same value only
-    ELSE IF IsKnown(m) THEN PyType(m) = t               \* TypedValue <- KnownValue: isinstance
+    ELSE IF IsKnown(t) THEN \/ t = m                    \* KnownValue.can_assign: same value of the same type only
+                            \/ Bug = "pyeq" /\ {t, m} \subseteq {"L1", "LT", "LE"}   \* (bug: Python's ==, 1 == True == E.A)
+    ELSE IF IsKnown(m) THEN SubClass(PyType(m), t)      \* TypedValue <- KnownValue: isinstance
     ELSE m = t                                          \* TypedValue <- TypedValue: int, str unrelated
 ImplAssign(tt, m, excl) == \E t \in tt : ImplAssignAtom(t, m, excl)      \* MultiValuedValue on the left
 \* value.py:3379 is_overlapping after _deliteral
-ImplOverlap(tt, m) == m = "Any" \/ \E t \in tt : PyType(t) = PyType(m)
+ImplOverlap(tt, m) == m = "Any" \/ \E t \in tt : SubClass(PyType(t), PyType(m)) \/ SubClass(PyType(m), PyType(t))
 \* constrain_value(val, IsAssignablePredicate(typ, positive_only=False)) with positive=True
 \* (predicates.py:59-69), applied to every member of val (stacked_scopes.py:1584)
 ImplConstrainMember(tt, m, F) ==
@@ -368,21 +446,48 @@ ImplIsOfType(v, tt, excl, vars, F) ==
        ELSE IF Cardinality(val) >= 2 /\ matched # {}                 \* decompose_union found a split (:437-451)
        THEN [l |-> Some(One(v, ImplConstrain(tt, val, matched, F))), r |-> Some(One(v, val \ matched))]
        ELSE [l |-> None, r |-> Some(EmptyMap)]                       \* :452
-Reverse(r) == [l |-> r.r, r |-> r.l]                                 \* ConditionReturn.reverse (:327)
 Decided(b) == IF b THEN [l |-> Some(EmptyMap), r |-> None] ELSE [l |-> None, r |-> Some(EmptyMap)]
+\* return_invalid (:342): ConditionReturn(NullCondition()), neither map
+NullC == [l |-> None, r |-> None]
+\* the evaluation of the condition raises (the visitor turns it into internal_error)
+CrashMark == [some |-> FALSE, m |-> <<"crash">>]
+CrashC == [l |-> CrashMark, r |-> CrashMark]
+IsCrash(r) == ~r.l.some /\ ~r.r.some /\ r.l.m # << >>
+IsNull(r) == ~r.l.some /\ ~r.r.some /\ r.l.m = << >>
+Reverse(r) == IF IsCrash(r) THEN r ELSE [l |-> r.r, r |-> r.l]       \* ConditionReturn.reverse (:327); None.reverse()
 
-\* sys.version_info / sys.platform comparisons are delegated to CPython (:495-513)
-PyTupleLess(x, y) == LexLess(x, y)
+\* the operand visit_Compare hands to Python's operator for sys.version_info (:488)
+VerOperand(env) == IF Bug = "ver2" THEN SubSeq(env.ver, 1, 2)
+                   ELSE IF Bug = "ver3" THEN SubSeq(env.ver, 1, 3) ELSE env.ver
+\* the visit of the primitive condition x records an InvalidEvaluation and returns NullCondition
+ImplAtomNull(env, x, F) ==
+    CASE x.k = "cmp" -> \/ x.lit = "X"                            \* evaluate_literal: "Only literals supported" (:471-473)
+                        \/ x.op \notin {"eq", "ne", "is", "isnot"} \* :474-476 not taken, :482 not an Attribute -> :515
+      [] x.k = "cmpin" -> TRUE                                    \* :515 "Unsupported comparison operator"
+      [] x.k = "chain" -> TRUE                                    \* :467-468
+      [] x.k = "cmprev" -> TRUE                                   \* right operand is a Name: no literal (:471-473)
+      [] x.k = "ver" -> \/ HasX(x.tup)                            \* :471-473
+                        \/ PyVerCompare(VerOperand(env), x) = "err"   \* data.impl raises (:496-501)
+      [] x.k = "veri" -> "veri" \notin F                          \* node.left is a Subscript -> :515
+      [] x.k = "platsw" -> TRUE                                   \* visit_Call: func is no Name (:347-348)
+      [] x.k = "bare" -> "genvisit" \in F
+      [] OTHER -> FALSE
+\* no visit_Name / visit_Constant / visit_Attribute: ast.NodeVisitor.generic_visit returns None
+ImplAtomCrash(x, F) == x.k = "bare" /\ "genvisit" \notin F
 
 RECURSIVE ImplCond(_, _, _, _, _), ImplBoolOp(_, _, _, _, _, _, _, _, _)
 ImplCond(c, env, vars, x, F) ==
+    IF x.k \notin {"not", "and", "or"} /\ ImplAtomCrash(x, F) THEN CrashC
+    ELSE IF x.k \notin {"not", "and", "or"} /\ ImplAtomNull(env, x, F) THEN NullC
+    ELSE
     CASE x.k = "kind" -> Decided(ImplKindTest(x.f, ImplPos(c, x.v)))                \* :350-378
       [] x.k = "oft" -> ImplIsOfType(x.v, ToSet(x.tt), x.x, vars, F)                 \* :379-403
       [] x.k = "cmp" ->                                                              \* visit_Compare :466-480
            LET r == ImplIsOfType(x.v, {x.lit}, TRUE, vars, F)
            IN IF x.op \in {"ne", "isnot"} THEN Reverse(r) ELSE r
-      [] x.k = "ver" -> Decided(IF x.op = "lt" THEN PyTupleLess(env.ver, x.tup) ELSE ~PyTupleLess(env.ver, x.tup))
-      [] x.k = "plat" -> Decided(IF x.op = "eq" THEN env.plat = x.name ELSE env.plat # x.name)
+      \* sys.version_info / sys.platform comparisons are delegated to Python's operators (:495-513)
+      [] x.k = "ver" -> Decided(PyVerCompare(VerOperand(env), x) = "T")
+      [] x.k \in {"veri", "plat", "platin"} -> Decided(PyEnvEval(env, x) = "T")
       [] x.k = "not" -> Reverse(ImplCond(c, env, vars, x.c, F))                      \* visit_UnaryOp :459
       [] x.k \in {"and", "or"} -> ImplBoolOp(c, env, x.cs, 1, x.k = "and", vars, EmptyMap, << >>, F)
 \* visit_BoolOp (:517-584): operands in order under the narrowing accumulated so far
@@ -391,7 +496,10 @@ ImplBoolOp(c, env, cs, i, isAnd, vars, narrowed, remaining, F) ==
         (IF isAnd THEN [l |-> Some(narrowed), r |-> Unite(remaining)]
                   ELSE [l |-> Unite(remaining), r |-> Some(narrowed)])
     ELSE LET res == ImplCond(c, env, vars, cs[i], F) IN
-         IF isAnd THEN
+         IF IsCrash(res) THEN res                                                    \* result.condition of None (:530)
+         ELSE IF ~isAnd /\ IsNull(res) THEN                                          \* narrowed_varmap.update(None) (:554)
+            (IF "ornull" \in F THEN NullC ELSE CrashC)
+         ELSE IF isAnd THEN
             IF ~res.l.some THEN                                                      \* :532-537
                 [l |-> None,
                  r |-> IF "boolop" \in F /\ remaining # << >> /\ res.r.some
@@ -422,7 +530,9 @@ ImplStmt(c, env, vars, s, F) ==
       [] s.k = "err" -> [rets |-> << "none" >>, errs |-> << ErrLabel(s.s) >>, ft |-> Some(vars)]  \* :700-729
       [] s.k = "if" ->                                                                    \* visit_If :731-762
            LET cond == ImplCond(c, env, vars, s.c, F)
-               skip == [rets |-> << "none" >>, errs |-> << >>, ft |-> None]
+           IN IF IsCrash(cond) THEN [rets |-> << "CRASH" >>, errs |-> << >>, ft |-> None]  \* condition.left_varmap of None (:739)
+           ELSE
+           LET skip == [rets |-> << "none" >>, errs |-> << >>, ft |-> None]
                L == IF cond.l.some THEN ImplBlock(c, env, Merge(vars, cond.l.m), s.t, 1, << >>, F) ELSE skip
                R == IF cond.r.some THEN ImplBlock(c, env, Merge(vars, cond.r.m), s.e, 1, << >>, F) ELSE skip
            IN [rets |-> IF cond.l.some /\ cond.r.some THEN L.rets \o R.rets               \* CombinedReturn.make :754
@@ -453,6 +563,31 @@ ImplErrSeq(c, env) == ImplRun(c, env, NoFix).errs
 \* (node_visitor.py:634), every error of the evaluator is attached to the call node
 DiagOf(e) == IF e = << >> THEN << >> ELSE << e[1] >>
 ImplDiag(c, env) == DiagOf(ImplErrSeq(c, env))
+
+\* Validation at the definition (name_check_visitor.py:2258-2274 -> Evaluator.validate): every
+\* condition and both blocks of every `if` are visited (visit_If / visit_BoolOp in validation_mode),
+\* every InvalidEvaluation becomes a bad_evaluator diagnostic.  `not <bare>` raises there
+\* (visit_UnaryOp :461-462: None.reverse()).
+RECURSIVE HasNotBare(_)
+HasNotBare(x) ==
+    IF x.k = "not" THEN x.c.k = "bare" \/ HasNotBare(x.c)
+    ELSE IF x.k \in {"and", "or"} THEN \E i \in 1..Len(x.cs) : HasNotBare(x.cs[i])
+    ELSE FALSE
+ImplDefCrash(c, F) == "genvisit" \notin F /\ \E i \in 1..Len(c.lines) : HasNotBare(c.lines[i].c)
+ImplRejected(c, env, F) == ~ImplDefCrash(c, F) /\ \E x \in BodyAtoms(c.lines) : ImplAtomNull(env, x, F)
+\* the check of the definition or of the call raises
+ImplCrashes(c, env, F) ==
+    /\ \E x \in BodyAtoms(c.lines) : ImplAtomNull(env, x, F) \/ ImplAtomCrash(x, F)
+    /\ \/ ImplDefCrash(c, F)
+       \/ "CRASH" \in ToSet(ImplRun(c, env, F).rets)
+\* the same check in ordinary code (`if sys.version_info > "3":` in a function body):
+\* name_check_visitor.py:3569-3575 applies the operator to sys.version_info and the literal
+\* right-hand side unguarded, for the four ordering operators
+ImplTwinRaises(env, x) ==
+    IF x.k = "not" THEN FALSE ELSE
+    /\ "twin" \notin Fixed                       \* (repair: the application is guarded)
+    /\ x.k = "ver" /\ ~HasX(x.tup) /\ x.op \in {"lt", "le", "gt", "ge"}
+    /\ PyVerCompare(env.ver, x) = "err"
 
 (***************************************************************************)
 (* Known deviations of the implementation from the specification           *)
@@ -506,6 +641,37 @@ Dev_CorrelationLost(c, env) == "two-union-arguments-correlation-lost" \in Class(
 MayUnderApproximate == {"ellipsis-default-not-annotation", "any-narrowed-to-tested-type",
                         "boolop-deciding-operand-drops-members"}
 
+\* Accepting and rejecting conditions.  The demand: the check never raises; an evaluator with a
+\* condition that is none of the specification's is rejected at its definition; one whose conditions
+\* are all defined is not; rejection for an "either" condition is allowed.
+StatusReq(c, env, F) ==
+    LET atoms == BodyAtoms(c.lines)
+        rej == ImplRejected(c, env, F)
+    IN /\ ~ImplCrashes(c, env, F)
+       /\ IF RefMustReject(c, env) THEN rej
+          ELSE rej => \A x \in atoms : ImplAtomNull(env, x, F) => RefValidity(env, x) = "either"
+\*  unsupported-condition-form-not-rejected   `if a:`, `if True:`, `if sys.platform:` (any expression
+\*        without a visit_ method of ConditionEvaluator) is not reported at the definition and every
+\*        call that evaluates it raises (internal_error)
+\*  invalid-or-operand-crashes-call   an invalid condition as an operand of `or` is reported at the
+\*        definition, and a call that evaluates it raises in visit_BoolOp (:554) instead of treating
+\*        the condition as invalid (as `and`, `not` and a plain `if` do)
+\*  version-subscript-check-rejected   PEP 484's own example `sys.version_info[0] >= 3` is rejected
+StatusClassName(f) == CASE f = "genvisit" -> "unsupported-condition-form-not-rejected"
+                        [] f = "ornull" -> "invalid-or-operand-crashes-call"
+                        [] f = "veri" -> "version-subscript-check-rejected"
+StatusClass(c, env) ==
+    IF StatusReq(c, env, Fixed) THEN {}
+    ELSE LET Fixing == {S \in SUBSET (StatusRepairs \ Fixed) : StatusReq(c, env, S \cup Fixed)}
+         IN IF Fixing = {} THEN {"viol"}
+            ELSE LET S == CHOOSE S \in Fixing : \A S2 \in Fixing : Cardinality(S) <= Cardinality(S2)
+                 IN {StatusClassName(f) : f \in S}
+Dev_UnsupportedConditionNotRejected(c, env) == "unsupported-condition-form-not-rejected" \in StatusClass(c, env)
+Dev_InvalidOrOperandCrashes(c, env) == "invalid-or-operand-crashes-call" \in StatusClass(c, env)
+Dev_VersionSubscriptRejected(c, env) == "version-subscript-check-rejected" \in StatusClass(c, env)
+\* ordinary code: version-check-invalid-rhs-crashes-ordinary-code
+Dev_OrdinaryVersionCheckRaises(env, x) == ImplTwinRaises(env, x)
+
 \* argument kinds: the three documented predicates (DEFAULT and UNKNOWN are indistinguishable)
 KindsAgree(c, posOf) ==
     \A v \in Vars : \A f \in {"prov", "pos", "kw"} : ImplKindTest(f, posOf[v]) = RefKindTest(f, RefKind(c, v))
@@ -524,39 +690,102 @@ KindsAgree(c, posOf) ==
 (* (no argument-kind primitive: no *args/**kwargs calls; an argument no    *)
 (* is_of_type / comparison tests has the canonical type).                  *)
 (***************************************************************************)
+\* the interpreter the model is evaluated on (the harness substitutes the running one if it differs)
+ModelEnv == [ver |-> <<EI(3), EI(12), EI(1), ES(5), EI(0)>>, plat |-> "linux"]
+
+(***************************************************************************)
+(* Condition families (profiles "cenv", "ccmp")                            *)
+(*                                                                         *)
+(* Every member of a family is enumerated as a probe                       *)
+(*     if [not] <x>: show_error; return   else: show_error; return         *)
+(* (the branch taken is visible in the returned type and in the error      *)
+(* fired), a core subset is combined with not / and / or and placed in     *)
+(* generated bodies (if / elif / else, nesting, fall-through).             *)
+(* Version tuples are built around the interpreter's own version, where    *)
+(* the outcome depends on every position of sys.version_info.              *)
+(***************************************************************************)
+MV(i) == ModelEnv.ver[i].n
+D3 == {0, 1, 2}                       \* offsets -1, 0, +1 (as naturals: value + d - 1)
+Off(v, d) == IF v + d >= 1 THEN v + d - 1 ELSE 0
+Levels == {ES(3), ES(5), ES(6)}          \* "beta", "final", "x"
+VerTuplesWellTyped ==
+    { <<EI(Off(MV(1), d))>> : d \in D3 }
+    \cup { <<EI(Off(MV(1), d1)), EI(Off(MV(2), d2))>> : d1 \in D3, d2 \in D3 }
+    \cup { <<EI(MV(1)), EI(Off(MV(2), d2)), EI(Off(MV(3), d3))>> : d2 \in D3, d3 \in D3 }
+    \cup { <<EI(MV(1)), EI(MV(2)), EI(Off(MV(3), d3)), lv>> : d3 \in D3, lv \in Levels }
+    \cup { <<EI(MV(1)), EI(MV(2)), EI(MV(3)), lv, EI(ser)>> : lv \in Levels, ser \in {0, 1} }
+VerTuplesOther ==
+    { << >>, <<EI(MV(1)), ES(6)>>, <<EI(MV(1) + 1), ES(6)>>, <<EI(MV(1)), EI(MV(2)), ES(6)>>,
+      <<EI(MV(1)), EI(MV(2)), EI(MV(3)), EI(5)>>, <<EI(MV(1)), N0>>, <<EI(MV(1)), X0>>,
+      <<EI(MV(1)), EI(MV(2)), EI(MV(3)), ES(5), EI(0), EI(7)>> }
+VerOps == {"lt", "le", "gt", "ge", "eq", "ne"}
+VerFamily ==
+    { Ver(op, t) : op \in VerOps, t \in VerTuplesWellTyped \cup VerTuplesOther }
+    \cup { VerS(op, e) : op \in VerOps, e \in {EI(3), ES(1), N0, X0} }
+    \cup { VerIx(i, op, Off(MV(i + 1), d)) : i \in {0, 1}, op \in VerOps, d \in D3 }
+PlatFamily ==
+    { Plat(op, n) : op \in {"eq", "ne"}, n \in {"linux", "win32"} }
+    \cup { PlatIn(op, ns) : op \in {"in", "notin"}, ns \in { <<"linux", "darwin">>, <<"win32", "darwin">>, <<"linux">> } }
+    \cup { PlatSW(n) : n \in {"lin", "win"} }
+    \cup { Chain("a", "ver"), Bare("plat") }
+CmpFamily ==
+    { Cmp("a", op, lit) : op \in {"eq", "ne", "is", "isnot", "lt", "ge"}, lit \in {"L1", "Lx", "None", "LT", "LE", "X"} }
+    \cup { CmpIn("a", op, ls) : op \in {"in", "notin"}, ls \in { <<"L1", "L2">>, <<"L1">> } }
+    \cup { Chain("a", "a"), CmpRev("a", "L1"), CmpRev("a", "X"), Bare("a"), Bare("True") }
+CmpArgTypes == { <<"L1">>, <<"LT">>, <<"LE">>, <<"None">>, <<"int">>, <<"Any">>,
+                 <<"L1", "L2">>, <<"L1", "LT">>, <<"LT", "LE">>, <<"L1", "None">>, <<"Any", "L1">>, <<"Any", "LT">> }
+CmpBodyArgTypes == { <<"L1">>, <<"LT">>, <<"Any">>, <<"L1", "LT">>, <<"Any", "L1">> }
+\* the members combined with other conditions and placed in generated bodies
+MM == <<EI(MV(1)), EI(MV(2))>>
+MMU == <<EI(MV(1)), EI(MV(2)), EI(MV(3))>>
+EnvCoreValid == { Ver("gt", MM), Ver("eq", MM), Ver("ge", MMU), Ver("lt", <<EI(MV(1)), EI(MV(2)), EI(MV(3) + 1)>>),
+                  Ver("le", <<EI(MV(1)), EI(MV(2) + 1)>>), Ver("ne", ModelEnv.ver) }
+EnvCore == EnvCoreValid \cup { Plat("eq", "linux"), PlatIn("notin", <<"linux", "darwin">>),
+                               VerS("gt", ES(1)), VerIx(0, "ge", MV(1)), Bare("plat") }
+EnvSecond == { Cmp("a", "eq", "L1"), Ver("gt", MM), VerS("gt", ES(1)) }
+CmpCore == { Cmp("a", "eq", "L1"), Cmp("a", "isnot", "LT"), Cmp("a", "ne", "LE"), Cmp("a", "is", "None"),
+             Cmp("a", "ge", "L1"), CmpIn("a", "in", <<"L1", "L2">>), Bare("a") }
+CmpSecond == { Cmp("a", "eq", "L1"), Cmp("a", "eq", "LT"), CmpIn("a", "in", <<"L1", "L2">>), Bare("a") }
+Probe2Lits == LET fam == IF Profile = "cenv" THEN VerFamily \cup PlatFamily ELSE CmpFamily
+              IN fam \cup {Not(x) : x \in fam}
+
 \* Profiles: "tiny" (quick tier), "small" (thorough tier), "corr" (two tested union arguments, few
 \* atoms, larger bodies), "corrq" (quick-tier slice of corr: both arguments are the literal unions
 \* Literal[1, 2] / Literal['x', 'y'] passed positionally, both parameters tested by the body, no
 \* probes), "full" (random simulation only: every primitive of the grammar)
+\* "cenv" / "ccmp": the families of version / platform conditions and of comparison conditions
+\* (see "Condition families" below)
 CorrQ == Profile = "corrq"
+NewProf == Profile \in {"cenv", "ccmp"}
 PickP(tiny, small, corr, full) ==
     CASE Profile = "tiny" -> tiny [] Profile = "small" -> small [] Profile \in {"corr", "corrq"} -> corr [] Profile = "full" -> full
 AllTTs == { <<"L1">>, <<"Lx">>, <<"int">>, <<"str">>, <<"None">>, <<"L1", "L2">>, <<"int", "None">>, <<"L1", "None">> }
-AtomsA == PickP(
+AtomsA == IF Profile = "cenv" THEN {Cmp("a", "eq", "L1")} ELSE IF Profile = "ccmp" THEN CmpCore ELSE PickP(
     {Cmp("a", "eq", "L1"), Oft("a", <<"int">>, TRUE), Oft("a", <<"int">>, FALSE)},
     {Cmp("a", "eq", "L1"), Oft("a", <<"int">>, TRUE), Oft("a", <<"int">>, FALSE), Oft("a", <<"L1", "L2">>, TRUE)},
     {Cmp("a", "eq", "L1")},
     {Cmp("a", op, lit) : op \in {"eq", "ne", "is", "isnot"}, lit \in {"L1", "L2", "Lx", "None"}}
         \cup {Oft("a", tt, x) : tt \in AllTTs, x \in BOOLEAN})
-AtomsB == PickP(
+AtomsB == IF NewProf THEN {} ELSE PickP(
     {Cmp("b", "eq", "Lx")},
     {Cmp("b", "eq", "Lx")},
     {Cmp("b", "eq", "Lx")},
     {Cmp("b", op, lit) : op \in {"eq", "ne", "is", "isnot"}, lit \in {"Lx", "L1", "None"}}
         \cup {Oft("b", tt, x) : tt \in {<<"str">>, <<"Lx">>, <<"int", "None">>}, x \in BOOLEAN})
 AllKindAtoms == {KindAtom(f, v) : f \in {"prov", "pos", "kw"}, v \in Vars}
-KindAtoms == PickP({KindAtom("prov", "b")}, {KindAtom("prov", "b"), KindAtom("kw", "a")}, {}, AllKindAtoms)
-AllEnvAtoms == {Ver("ge", <<3, 8>>), Ver("lt", <<3, 8>>), Ver("ge", <<3, 99>>), Ver("lt", <<4>>),
+KindAtoms == IF NewProf THEN {} ELSE PickP({KindAtom("prov", "b")}, {KindAtom("prov", "b"), KindAtom("kw", "a")}, {}, AllKindAtoms)
+AllEnvAtoms == {Ver("ge", IT(<<3, 8>>)), Ver("lt", IT(<<3, 8>>)), Ver("ge", IT(<<3, 99>>)), Ver("lt", IT(<<4>>)),
                 Plat("eq", "win32"), Plat("ne", "win32"), Plat("eq", "linux"), Plat("ne", "linux")}
-EnvAtoms == PickP(
+EnvAtoms == IF Profile = "cenv" THEN EnvCore ELSE IF Profile = "ccmp" THEN {} ELSE PickP(
     {},
-    {Ver("ge", <<3, 8>>), Plat("eq", "win32")},
+    {Ver("ge", IT(<<3, 8>>)), Plat("eq", "win32")},
     {},
-    AllEnvAtoms)
+    AllEnvAtoms \cup EnvCoreValid)
 Atoms == AtomsA \cup AtomsB \cup KindAtoms \cup EnvAtoms
 Lits == Atoms \cup {Not(x) : x \in Atoms}
 \* second operands of two-operand conditions
-Lits2 == AtomsA \cup AtomsB \cup (KindAtoms \cap {KindAtom("prov", "b")})
+Lits2 == IF Profile = "cenv" THEN EnvSecond ELSE IF Profile = "ccmp" THEN CmpSecond
+         ELSE AtomsA \cup AtomsB \cup (KindAtoms \cap {KindAtom("prov", "b")})
 Pairs == {And2(x, y) : x \in Lits, y \in Lits2} \cup {Or2(x, y) : x \in Lits, y \in Lits2}
 Conds1 == Lits
 Conds2 == Pairs \cup {Not(p) : p \in Pairs}
@@ -578,7 +807,7 @@ CondsUpTo(n, u) ==
 \* plain and negated (probes)
 KindProbeLits == AllKindAtoms \cup {Not(x) : x \in AllKindAtoms}
 ProbeLits == KindProbeLits \cup AllEnvAtoms \cup {Not(x) : x \in AllEnvAtoms}
-LeafKinds == PickP({"ret", "err"}, {"ret", "err", "pass"}, {"ret", "err"}, {"ret", "err", "pass"})
+LeafKinds == IF NewProf THEN {"ret", "err"} ELSE PickP({"ret", "err"}, {"ret", "err", "pass"}, {"ret", "err"}, {"ret", "err", "pass"})
 
 ParamSpace == [kind : {"po", "pk", "ko", "va", "vk"}, dflt : {"req", "lit", "ell"}]
 KwsSpace == { << >>, <<"a">>, <<"b">>, <<"a", "b">>, <<"z">>, <<"a", "z">> }
@@ -588,8 +817,10 @@ CanonSig == << P("pk", "req"), P("pk", "lit") >>
 EllSig == << P("pk", "lit"), P("pk", "ell") >>
 MoreSigs == { CanonSig, EllSig, << P("pk", "req"), P("ko", "lit") >>, << P("po", "lit"), P("pk", "lit") >>,
               << P("pk", "ell"), P("va", "req") >>, << P("pk", "lit"), P("vk", "req") >> }
-BodySigs == PickP({CanonSig, EllSig}, {CanonSig, EllSig, << P("pk", "req"), P("ko", "lit") >>}, {CanonSig}, MoreSigs)
-ArgTypesA == IF CorrQ THEN { <<"L1", "L2">> } ELSE PickP(
+BodySigs == IF NewProf THEN {CanonSig} ELSE PickP({CanonSig, EllSig}, {CanonSig, EllSig, << P("pk", "req"), P("ko", "lit") >>}, {CanonSig}, MoreSigs)
+ArgTypesA == IF CorrQ THEN { <<"L1", "L2">> }
+             ELSE IF Profile = "cenv" THEN { <<"L1">>, <<"L1", "L2">>, <<"Any">> }
+             ELSE IF Profile = "ccmp" THEN CmpArgTypes ELSE PickP(
     { <<"L1">>, <<"Any">>, <<"L1", "L2">>, <<"Any", "L1">> },
     { <<"L1">>, <<"Any">>, <<"L1", "L2">>, <<"L1", "Lx">>, <<"Any", "L1">>, <<"L1", "int">> },
     { <<"L1">>, <<"L1", "L2">> },
@@ -597,12 +828,12 @@ ArgTypesA == IF CorrQ THEN { <<"L1", "L2">> } ELSE PickP(
       <<"L1", "L2">>, <<"L1", "Lx">>, <<"L1", "None">>, <<"int", "str">>, <<"int", "None">>,
       <<"L1", "int">>, <<"Any", "L1">>, <<"Any", "int">>, <<"L1", "L2", "Lx">>, <<"Any", "L1", "Lx">>,
       <<"L1", "int", "None">> })
-ArgTypesB == IF CorrQ THEN { <<"Lx", "Ly">> } ELSE PickP(
+ArgTypesB == IF CorrQ THEN { <<"Lx", "Ly">> } ELSE IF NewProf THEN { <<"Lx">> } ELSE PickP(
     { <<"Lx">>, <<"Lx", "Ly">> },
     { <<"Lx">>, <<"Lx", "Ly">> },
     { <<"Lx">>, <<"Lx", "Ly">> },
     { <<"Lx">>, <<"str">>, <<"Any">>, <<"None">>, <<"Lx", "Ly">>, <<"Lx", "L1">>, <<"Any", "Lx">>, <<"str", "None">> })
-AnnChoices == PickP({TRUE}, BOOLEAN, {TRUE}, BOOLEAN)
+AnnChoices == IF NewProf THEN {TRUE} ELSE PickP({TRUE}, BOOLEAN, {TRUE}, BOOLEAN)
 
 VARIABLES case, stage
 gvars == <<case, stage>>
@@ -610,12 +841,14 @@ gvars == <<case, stage>>
 Blank == [lines |-> << >>, ann |-> FALSE, sig |-> CanonSig,
           call |-> [npos |-> 1, kws |-> << >>, star |-> FALSE, dstar |-> FALSE],
           ta |-> <<"L1">>, tb |-> <<"Lx">>]
-ModelEnv == [ver |-> <<3, 12, 1>>, plat |-> "linux"]
 
 NIfs(lines) == Cardinality({i \in 1..Len(lines) : lines[i].k \in {"if", "elif"}})
 ProbeBody(x) == << [ind |-> 0, k |-> "if", c |-> x], [ind |-> 1, k |-> "ret", c |-> NoCond],
                    [ind |-> 0, k |-> "ret", c |-> NoCond] >>
 IsProbe(lines) == Len(lines) = 3 /\ lines[1].c \in ProbeLits /\ lines = ProbeBody(lines[1].c)
+ProbeBody2(x) == << [ind |-> 0, k |-> "if", c |-> x], [ind |-> 1, k |-> "err", c |-> NoCond], [ind |-> 1, k |-> "ret", c |-> NoCond],
+                    [ind |-> 0, k |-> "else", c |-> NoCond], [ind |-> 1, k |-> "err", c |-> NoCond], [ind |-> 1, k |-> "ret", c |-> NoCond] >>
+IsProbe2(lines) == Len(lines) = 6 /\ lines = ProbeBody2(lines[1].c)
 
 Init == case = Blank /\ stage = "body"
 
@@ -644,9 +877,14 @@ AddIf ==
     /\ UNCHANGED stage
 \* the kind probes start from their fixed three-line body
 StartProbe ==
-    /\ stage = "body" /\ case.lines = << >> /\ ~CorrQ
+    /\ stage = "body" /\ case.lines = << >> /\ ~CorrQ /\ ~NewProf
     /\ \E x \in ProbeLits : case' = [case EXCEPT !.lines = ProbeBody(x)]
     /\ stage' = "sig"
+\* the probes of the condition families: the six-line body, canonical signature and call
+StartProbe2 ==
+    /\ stage = "body" /\ case.lines = << >> /\ NewProf
+    /\ \E x \in Probe2Lits : case' = [case EXCEPT !.lines = ProbeBody2(x), !.ann = TRUE]
+    /\ stage' = "types"
 EndBody ==
     /\ stage = "body" /\ Complete(case.lines) /\ NIfs(case.lines) >= 1 /\ ~IsProbe(case.lines)
     /\ (CorrQ => TypeVarsTested(case.lines) = Vars)
@@ -667,6 +905,7 @@ ChooseCall ==
          LET c2 == [case EXCEPT !.call = call] IN
          /\ CallOK(case.sig, call)
          /\ (CorrQ => call.npos = 2 /\ call.kws = << >>)
+         /\ (NewProf => call = Blank.call)
          /\ \A v \in TypeVarsTested(case.lines) : Typed(c2, v)
          /\ (KindVarsTested(case.lines) = {} => ~call.star /\ ~call.dstar /\ call.kws \in {<< >>, <<"b">>})
          /\ case' = c2
@@ -676,10 +915,11 @@ ChooseTypes ==
     /\ \E ta \in ArgTypesA, tb \in ArgTypesB :
          /\ ((ExplicitV(case, "a") /\ "a" \in TypeVarsTested(case.lines)) \/ ta = <<"L1">>)
          /\ ((ExplicitV(case, "b") /\ "b" \in TypeVarsTested(case.lines)) \/ tb = <<"Lx">>)
+         /\ (Profile = "ccmp" /\ ~IsProbe2(case.lines) => ta \in CmpBodyArgTypes)   \* every type only for the probes
          /\ case' = [case EXCEPT !.ta = ta, !.tb = tb]
     /\ stage' = "done"
 
-Next == AddLeaf \/ AddElse \/ AddIf \/ StartProbe \/ EndBody \/ ChooseSig \/ ChooseCall \/ ChooseTypes
+Next == AddLeaf \/ AddElse \/ AddIf \/ StartProbe \/ StartProbe2 \/ EndBody \/ ChooseSig \/ ChooseCall \/ ChooseTypes
 
 (***************************************************************************)
 (* Properties on the model                                                 *)
@@ -699,9 +939,17 @@ Judge(c, env) ==
         \* everything the specification prescribes is reported (result members, errors), except in
         \* the two classes that may under-approximate
         over |-> Sub(R, I) \/ cls \cap MayUnderApproximate # {}]
+\* conditions are accepted / rejected as the specification says (or a named class explains it); an
+\* evaluator that is accepted evaluates as documented.  (The result of calling a rejected evaluator
+\* is not defined by the text.)
+Accepted(c, env) == ~RefMustReject(c, env) /\ ~ImplRejected(c, env, NoFix) /\ ~ImplCrashes(c, env, NoFix)
 EvalFollowsSpec ==
-    Done => LET j == Judge(case, ModelEnv) IN "viol" \notin j.cls /\ j.single /\ j.over
+    Done => /\ "viol" \notin StatusClass(case, ModelEnv)
+            /\ Accepted(case, ModelEnv) =>
+                  LET j == Judge(case, ModelEnv) IN "viol" \notin j.cls /\ j.single /\ j.over
+\* expected to be violated on the condition families: the three status deviations are real
+StatusFollowsSpecStrict == Done => StatusReq(case, ModelEnv, Fixed)
 \* expected to be violated: the deviations are real (sensitivity of the specification)
-EvalFollowsSpecStrict == Done => ImplObs(case, ModelEnv) = RefObs(case, ModelEnv)
-OverApproximatesStrict == Done => Sub(RefObs(case, ModelEnv), ImplObs(case, ModelEnv))
+EvalFollowsSpecStrict == (Done /\ Accepted(case, ModelEnv)) => ImplObs(case, ModelEnv) = RefObs(case, ModelEnv)
+OverApproximatesStrict == (Done /\ Accepted(case, ModelEnv)) => Sub(RefObs(case, ModelEnv), ImplObs(case, ModelEnv))
 =============================================================================
